@@ -154,7 +154,6 @@ func ZZC03Shadow() {
 	prog := nd.LoadProgram(files, holes)
 	res := Analyze(prog, config.Default(), "zzmod/d", Facts{}, "tonl")
 	tF := nd.HasPrefix(annF, " @testonly")
-	nd.Known("C03/ident-shadow", tF)
 	CheckExact(res.Diags, []Expect{
 		{"/zz/zzmod/d/d.go", nd.LineOf(c03SrcShadow, "SH-REAL"), "TONL02", tF},
 	}, "C03 shadowing identifiers")
@@ -250,10 +249,135 @@ func ZZC03TwoPkgs() {
 	ru := Analyze(prog, cfg, "zzmod/u", Facts{"zzmod/d1": &r1.Ann, "zzmod/d2": &r2.Ann}, "tonl")
 	t1 := nd.HasPrefix(ann1, " @testonly")
 	t2 := nd.HasPrefix(ann2, " @testonly")
-	nd.Known("C03/dedup-by-bare-type-name", nd.And(t1, t2))
 	fu := "/zz/zzmod/u/u.go"
 	CheckExact(ru.Diags, []Expect{
 		{fu, nd.LineOf(c03SrcU2, "U-ONE"), "TONL01", t1},
 		{fu, nd.LineOf(c03SrcU2, "U-TWO"), "TONL01", t2},
 	}, "C03 two packages with a same-named type")
+}
+
+const c03SrcED = `package d
+
+//«annH»
+type Helper struct {
+	X int
+}
+
+//«annF»
+func Mock() int { return 1 }
+
+//«annW»
+func Wrap(x int) int { return x }
+
+// @testonly
+func Take(v interface{}) {}
+
+type S struct{}
+
+//«annM»
+func (s *S) Reset() {}
+
+type Outer struct {
+	S
+}
+
+type Q struct{}
+
+// an unannotated METHOD that shares the name of the function Mock
+func (q *Q) Mock() int {
+	return Mock() // E-NAMESAKE-METHOD-BODY
+}
+
+// an unannotated FUNCTION that shares the name of the method (*S).Reset
+func Reset(s *S) {
+	s.Reset() // E-NAMESAKE-FUNC-BODY
+}
+`
+
+const c03SrcE1 = `package d
+
+func Edge(s *S, o *Outer) {
+	_ = Wrap( // E-NEST-OUTER
+		Mock()) // E-NEST-INNER
+	Take( // E-NEST-TAKE
+		Helper{X: Mock()}) // E-NEST-LIT
+	_ = (Mock)() // E-PAREN-CALL
+	(s.Reset)() // E-PAREN-MCALL
+	o.Reset() // E-PROMOTED
+	o.S.Reset() // E-EXPLICIT
+}
+`
+
+const c03SrcE2 = `package d
+
+var list = []*Helper{{X: 1}} // E2-ELIDED-PTR
+`
+
+const c03SrcE2b = `package d
+
+var tab = map[string]Helper{"k": {X: 2}} // E2B-ELIDED-MAP
+`
+
+const c03SrcE3 = `package d
+
+func Local() int {
+	type Helper struct{ X int }
+	var h Helper // E3-LOCAL-VAR
+	g := Helper{X: 2} // E3-LOCAL-LIT
+	return h.X + g.X
+}
+`
+
+const c03SrcEU = `package u
+
+import . "zzmod/d"
+
+func Use(s *S) {
+	_ = Mock() // U-DOT-CALL
+	s.Reset() // U-DOT-MCALL
+	_ = Helper{} // U-DOT-LIT
+}
+`
+
+// ZZC03Edge: uses nested inside an already reported call, a method named like a @testonly function (and vice versa),
+// parenthesised callees, a method promoted through embedding, elided composite literals as the only use in a file, a
+// function-local type that shares the @testonly type's name, and a dot-importing package.
+func ZZC03Edge() {
+	annH := nd.EnumPad("annH", " @testonly", " plain")
+	annF := nd.EnumPad("annF", " @testonly", " plain")
+	annW := nd.EnumPad("annW", " @testonly", " plain")
+	annM := nd.EnumPad("annM", " @testonly", " plain")
+	holes := []nd.Hole{{"annH", annH}, {"annF", annF}, {"annW", annW}, {"annM", annM}}
+	files := []nd.File{{Pkg: "zzmod/d", Name: "d.go", Src: c03SrcED}, {Pkg: "zzmod/d", Name: "e1.go", Src: c03SrcE1}, {Pkg: "zzmod/d", Name: "e2.go", Src: c03SrcE2},
+		{Pkg: "zzmod/d", Name: "e2b.go", Src: c03SrcE2b}, {Pkg: "zzmod/d", Name: "e3.go", Src: c03SrcE3}, {Pkg: "zzmod/u", Name: "u.go", Src: c03SrcEU}}
+	prog := nd.LoadProgram(files, holes)
+	cfg := config.Default()
+	rd := Analyze(prog, cfg, "zzmod/d", Facts{}, "tonl")
+	ru := Analyze(prog, cfg, "zzmod/u", Facts{"zzmod/d": &rd.Ann}, "tonl")
+	tH := nd.HasPrefix(annH, " @testonly")
+	tF := nd.HasPrefix(annF, " @testonly")
+	tW := nd.HasPrefix(annW, " @testonly")
+	tM := nd.HasPrefix(annM, " @testonly")
+	fd, f1, f2, f2b, fu := "/zz/zzmod/d/d.go", "/zz/zzmod/d/e1.go", "/zz/zzmod/d/e2.go", "/zz/zzmod/d/e2b.go", "/zz/zzmod/u/u.go"
+	CheckExact(rd.Diags, []Expect{
+		{fd, nd.LineOf(c03SrcED, "E-NAMESAKE-METHOD-BODY"), "TONL02", tF},
+		{fd, nd.LineOf(c03SrcED, "E-NAMESAKE-FUNC-BODY"), "TONL03", tM},
+		{f1, nd.LineOf(c03SrcE1, "E-NEST-OUTER"), "TONL02", tW},
+		{f1, nd.LineOf(c03SrcE1, "E-NEST-INNER"), "TONL02", tF},
+		{f1, nd.LineOf(c03SrcE1, "E-NEST-TAKE"), "TONL02", true},
+		{f1, nd.LineOf(c03SrcE1, "E-NEST-LIT"), "TONL01", tH},
+		{f1, nd.LineOf(c03SrcE1, "E-NEST-LIT"), "TONL02", tF},
+		{f1, nd.LineOf(c03SrcE1, "E-PAREN-CALL"), "TONL02", tF},
+		{f1, nd.LineOf(c03SrcE1, "E-PAREN-MCALL"), "TONL03", tM},
+		{f1, nd.LineOf(c03SrcE1, "E-PROMOTED"), "TONL03", tM},
+		{f1, nd.LineOf(c03SrcE1, "E-EXPLICIT"), "TONL03", tM},
+		{f2, nd.LineOf(c03SrcE2, "E2-ELIDED-PTR"), "TONL01", tH},
+		{f2b, nd.LineOf(c03SrcE2b, "E2B-ELIDED-MAP"), "TONL01", tH},
+		// e3.go: the only Helper there is a function-local type: nothing
+	}, "C03 edge forms, declaring package")
+	CheckExact(ru.Diags, []Expect{
+		{fu, nd.LineOf(c03SrcEU, "U-DOT-CALL"), "TONL02", tF},
+		{fu, nd.LineOf(c03SrcEU, "U-DOT-MCALL"), "TONL03", tM},
+		{fu, nd.LineOf(c03SrcEU, "U-DOT-LIT"), "TONL01", tH},
+	}, "C03 edge forms, dot-importing package")
 }
